@@ -15,6 +15,10 @@ independent sub-family of `n − k` generators ⇒ `HasRank (2n) rowsH (n − k)
 that `stabilizer_matrix`, `logicals_x`, `logicals_z` of the generic code model (`Model/Code.lean`,
 C02) assemble from this lattice model form a valid `[[n, k]]` stabilizer code (`ValidCodeL`: all
 four clauses of C01, rank included) for EVERY size of the family.
+
+The family of the rank clause (`selStabs`) is defined in the Mathlib-free model file, printed by the driver op
+`rankfamily` and evaluated on the IMPLEMENTATION's parity-check matrix on every run (stream
+`lat-Toric2DCode-rank-family`: members `n − k`, all distinct stabilizer locations, GF(2) rank `n − k`).
 -/
 import PanqecVerif.Proofs.Lat2DRankBridge
 import PanqecVerif.Proofs.LatToric2DCodeRank
